@@ -386,6 +386,8 @@ def run(ctx):
     # the start hosts the scope is measured against are stored as the attribute the filter looks up
     from .common import hostnames_agreement_rule
     hostnames_agreement_rule(ctx, 'C01-D2')
+    from .common import prefilter_judges_child_rule
+    prefilter_judges_child_rule(ctx, 'C01-D2')
 
     # ------------------------------------------------------------------ D6
     _d6_redirect_hops(ctx)
